@@ -147,7 +147,8 @@ def pade_and_legendre_5():
         L_even = [P @ B * C[0, 2] + B * C[0, 0], P @ B * C[2, 2], zeros]
         L_odd = [P @ B * C[1, 3] + B * C[1, 1], P @ B * C[3, 3], zeros]
 
-        for k in [2]:  # todo: triple-check
+        for k in [2]:
+            P = A2 @ P
             L_even = [ell + P @ B * C[2 * i, 2 * k] for i, ell in enumerate(L_even)]
             L_odd = [
                 ell + P @ B * C[2 * i + 1, 2 * k + 1] for i, ell in enumerate(L_odd)
